@@ -7,26 +7,38 @@ import (
 	"gocv/vc"
 )
 
-var templateSrc = []string{
-	`fx(rs(bin(r("x1"), c(1)), "x1"))`,
-	`fx(rs(r("x1"), "x2"))`,
-	`fx(rs(c(5), "x1"))`,
-	`fx(rs(c(7), "x2"))`,
-	`fx(ms(r("x2"), "m", r("x1"), 8))`,
-	`fx(rs(ml("m", r("x2"), 8), "x1"))`,
-	`nil`,
-	`nil`,
-	`fx(rs(c(a+0x1000), "x2"))`,
-	`fx(rs(c(a+4), "x1"), rs(c(a+4), expr.IPKey))`,
-	`fx(rs(bin(r("x1"), r("x2")), "x1"))`,
-	`nil`,
-	`fx(rs(r("csr1"), "x2"))`,
-	`fx(ms(r("x1"), "m2", c(0x100), 4))`,
-	`fx(rs(ml("m", r("x1"), 4), "x2"))`,
-	`fx(ms(r("x1"), "m", bin(r("x2"), c(8)), 8))`,
-	`fx(rs(expr.NewLess(r("x1"), r("x2"), c(t), c(a+4), 8), expr.IPKey))`,
-	`fx(rs(r("x1"), expr.IPKey))`,
-	`fx(rs(c(t), expr.IPKey))`,
+var templateSrcByName = map[string]string{
+	"addi x1,x1,1":        `fx(rs(bin(r("x1"), c(1)), "x1"))`,
+	"mv x2,x1":            `fx(rs(r("x1"), "x2"))`,
+	"li x1,5":             `fx(rs(c(5), "x1"))`,
+	"li x2,7":             `fx(rs(c(7), "x2"))`,
+	"sd x2,0(x1)":         `fx(ms(r("x2"), "m", r("x1"), 8))`,
+	"ld x1,0(x2)":         `fx(rs(ml("m", r("x2"), 8), "x1"))`,
+	"fence":               `nil`,
+	"ecall":               `nil`,
+	"auipc x2":            `fx(rs(c(a+0x1000), "x2"))`,
+	"jal x1,+4":           `fx(rs(c(a+4), "x1"), rs(c(a+4), expr.IPKey))`,
+	"jal x2,+4":           `fx(rs(c(a+4), "x2"), rs(c(a+4), expr.IPKey))`,
+	"add x1,x1,x2":        `fx(rs(bin(r("x1"), r("x2")), "x1"))`,
+	"nop":                 `nil`,
+	"csrrw x2,c1,x0":      `fx(rs(r("csr1"), "x2"))`,
+	"sw x1,m2":            `fx(ms(r("x1"), "m2", c(0x100), 4))`,
+	"lw x2,0(x1)":         `fx(rs(ml("m", r("x1"), 4), "x2"))`,
+	"sd x1,8(x2)":         `fx(ms(r("x1"), "m", bin(r("x2"), c(8)), 8))`,
+	"amoadd.d x1,x1,(x1)": `fx(rs(ml("m", r("x1"), 8), "x1"), ms(bin(ml("m", r("x1"), 8), r("x1")), "m", r("x1"), 8))`,
+	"bgeu x1,x2,T":        `fx(rs(expr.NewLess(r("x1"), r("x2"), c(a+4), c(t), 8), expr.IPKey))`,
+	"bltu x1,x2,T":        `fx(rs(expr.NewLess(r("x1"), r("x2"), c(t), c(a+4), 8), expr.IPKey))`,
+	"jr x1":               `fx(rs(r("x1"), expr.IPKey))`,
+	"j T":                 `fx(rs(c(t), expr.IPKey))`,
+}
+
+// templateSrc returns the Go source building the effects of template t.
+func templateSrc(t int) string {
+	s, ok := templateSrcByName[insAlphabet()[t].Name]
+	if !ok {
+		panic("no replay source for template " + insAlphabet()[t].Name)
+	}
+	return s
 }
 
 // blockReplay: the block and the move history of the failing arrangement are
@@ -37,8 +49,11 @@ func (c *Ctx) blockReplay(seq blockSeq, moves func() [][2]int) func(o *vc.Outcom
 	return func(o *vc.Outcome) string {
 		al := insAlphabet()
 		var ins []string
+		addr := uint64(blockBase)
 		for i, t := range seq {
-			ins = append(ins, fmt.Sprintf("\t\tmk(%d, %d, func(a, t uint64) []expr.Effect { return %s }),", i, al[t].Type, templateSrc[t]))
+			ins = append(ins, fmt.Sprintf("\t\tmk(0x%x, %d, %d, func(a, t uint64) []expr.Effect { return %s }),", addr, al[t].length(), al[t].Type, templateSrc(t)))
+			addr += uint64(al[t].length())
+			_ = i
 		}
 		var mv []string
 		for _, m := range moves() {
@@ -153,9 +168,8 @@ func ms(v expr.Expr, k string, a expr.Expr, w expr.Width) expr.Effect {
 }
 func fx(es ...expr.Effect) []expr.Effect { return es }
 
-func mk(i int, typ uint64, f func(a, t uint64) []expr.Effect) parser.Instruction {
-	a := uint64(gocvBase + 4*i)
-	return parser.Instruction{Type: model.Type(typ), Addr: model.Addr(a), Bytes: []byte{0x10, 0x11, 0x12, 0x13}, Effects: f(a, gocvBase), Details: gocvDetails{}}
+func mk(a uint64, n int, typ uint64, f func(a, t uint64) []expr.Effect) parser.Instruction {
+	return parser.Instruction{Type: model.Type(typ), Addr: model.Addr(a), Bytes: []byte{0x10, 0x11, 0x12, 0x13}[:n], Effects: f(a, gocvBase), Details: gocvDetails{}}
 }
 
 `
